@@ -294,7 +294,7 @@ fn gen_val(rng: &mut Rng, depth: u32) -> V {
             V::Range(a, a + rng.range(-1, 3))
         }
         10 => match rng.below(6) {
-            0 => V::StreamInf,
+            0 => V::Range(0, 1), // (infinite streams only in the corpus: `+.` and comparison patterns would force them)
             1 => V::Func(rng.below(3) as usize),
             2 => V::Type(gen_ty(rng)),
             3 => V::Complex(*rng.pick(&[0.0, 1.0, 1.5, -2.0, 3.0]), *rng.pick(&[0.0, 1.0, -2.0])),
@@ -1818,6 +1818,14 @@ fn corpus() -> Vec<Case> {
         format!("x0, x1 := \"\u{e9}a\"; {}", dump),
         format!("assign {} E() s:c3a961 S(A(I0),A(I1))", K),
         false,
+        false,
+    ));
+    // an infinite stream against sequence patterns: a type error, not a hang
+    v.push(mk(
+        "switch/seq",
+        format!("switch (repeat(1)) case x0, x1 -> [0, {}] case ...x0, -> [1, {}] case [x0] -> [2, {}] case x0 -> [3, {}]", dump, dump, dump, dump),
+        format!("switch {} E() stream-inf S(I0,I1) S(P(I0)) L(I0) I0", K),
+        true,
         false,
     ));
     // or without rollback
